@@ -37,6 +37,7 @@ type solveCfg struct {
 	// unsat is a disagreement, reported as an error (never silently accepted)
 	crossCheck bool
 	mustDecide map[string]bool // baseline obligations (fast on the unchanged tree)
+	slowDecide map[string]bool // baseline obligations that needed more than 5 s on the unchanged tree
 }
 
 func buildQuery(fr *FuncResult, o *Obligation, values []string) string {
@@ -318,6 +319,30 @@ func solveAll(cfg *solveCfg, frs []*FuncResult) {
 		first := j.o.Secs
 		solveOne(&cfg3, j.fr, j.o, modelValues(j.fr, j.o))
 		j.o.Secs += first
+	}
+	// long last attempt for `slow` baseline obligations (5..70 s on the unchanged,
+	// idle tree): run alone with a 900 s limit, at most 3 of them, 40 minutes in
+	// total. One that still has no answer afterwards is reported as no longer
+	// discharged; without this a change that makes a slow obligation unprovable
+	// (the solvers cannot answer `sat` on quantified bit-vector goals) was only
+	// ever "undecided".
+	deadline = time.Now().Add(40 * time.Minute)
+	cfg4 := *cfg
+	cfg4.quickS = cfg2.timeoutS
+	cfg4.timeoutS = 900
+	n = 0
+	for _, j := range again {
+		if j.o.Status != "timeout" && j.o.Status != "unknown" {
+			continue
+		}
+		if !cfg.slowDecide[j.o.Name] || n >= 3 || time.Now().After(deadline) {
+			continue
+		}
+		n++
+		first := j.o.Secs
+		solveOne(&cfg4, j.fr, j.o, modelValues(j.fr, j.o))
+		j.o.Secs += first
+		j.o.LongTried = true
 	}
 }
 
